@@ -116,11 +116,24 @@ def loop_memo_epoch(run):
                     if not raises:
                         prove('result-returned-and-memoised', got is result and L.__dict__.get('_names') is result, path=path)
                         prove('memo-hit', L.names is result, clause='a second query returns the memoised table', path=path)
-                        if nested:
-                            prove('inner-loop-memo-dropped-too', '_names' not in inner.__dict__,
-                                  clause='an inner loop resolved while the outer back edge was open keeps no memo either', path=path)
+                        # (whether the INNER back edge keeps the table it computed meanwhile is not an obligation on the code: a stale
+                        #  inner back-edge table is absorbed at the inner loop head - lemma `stale-inner-back-edge-table-is-absorbed`)
                     else:
                         prove('exception-propagates-without-memo', exc is not None and '_names' not in L.__dict__, path=path)
+        run.case = 'lemma'
+        import z3
+        from spec.flow import Tr, SetD, Def
+        G, Pk = z3.Const('G_inner_body', SetD), z3.Bool('inner_body_preserves')
+        pre_p, pre_f = z3.Const('table_before_inner_loop_partial', SetD), z3.Const('table_before_inner_loop_full', SetD)
+        B = Tr(G, Pk)
+        head = lambda pre: z3.SetUnion(pre, B(pre))           # lfp of the inner loop head (one pass: lemma lfp_one_pass)
+        stale = B(head(pre_p))                                # the inner back-edge table computed while the outer back edge was open
+        fresh = B(head(pre_f))
+        path.assume(z3.IsSubset(pre_p, pre_f), check=False)
+        prove('stale-inner-back-edge-table-is-absorbed', z3.SetUnion(pre_f, stale) == z3.SetUnion(pre_f, fresh), kind='lemma',
+              clause='the inner loop head joins the (full) table before the loop with the back-edge table: a back-edge table that lacks what the '
+                     'outer back edge carries gives the same join, so an inner LoopFlow may keep it (gen/kill form, pointwise in the identifier)',
+              path=path)
         run.case = 're-entrant'
         top = mk_top()
 
